@@ -4,6 +4,7 @@
 #include <stdio.h>
 #include <stdlib.h>
 #include <string.h>
+#include <unistd.h>
 static unsigned long long next_in() {
     unsigned long long v = 0;
     if (scanf("%llu", &v) != 1) { printf("INPUT-EXHAUSTED\n"); fflush(stdout); exit(78); }
@@ -28,6 +29,7 @@ void verif_assert(bool c, const char *msg) noexcept {
     if (strncmp(msg, "WITNESS", 7) == 0) return;
     printf("ASSERTION-FAILED %s\n", msg); fflush(stdout); exit(1);
 }
+void verif_end() noexcept { printf("RETURNED\n"); fflush(stdout); _exit(0); }
 void verif_observe(uint64_t v) noexcept { printf("OBS %llu\n", (unsigned long long)v); }
 }
 extern "C" void VERIF_ENTRY();
